@@ -427,6 +427,68 @@ impl C19 {
                     fail(out, "promise_broken", format!("stabiliser state on {} qubits has {} outputs", qubits, dg.outputs.len()), "stab_state");
                     return;
                 }
+                // structural oracle, any width: n Z spiders with phases k*pi/2, each wired by one plain
+                // edge to its own output, Hadamard edges between spiders, nothing else. Every amplitude
+                // of such a diagram has modulus |scalar| * 2^(-E/2), so the squared norm is
+                // |scalar|^2 * 2^(n - E): a unit vector iff |scalar|^2 = 2^(E - n), exactly.
+                {
+                    use crate::zxeval::{Sc as DSc, VT};
+                    let n = *qubits;
+                    let is_out: std::collections::BTreeSet<usize> = dg.outputs.iter().copied().collect();
+                    let ty: std::collections::BTreeMap<usize, VT> = dg.verts.iter().map(|v| (v.id, v.ty)).collect();
+                    let mut e_h = 0i64;
+                    let mut wired: std::collections::BTreeMap<usize, usize> = Default::default();
+                    let mut bad: Option<String> = None;
+                    if dg.verts.len() != 2 * n || is_out.len() != n {
+                        bad = Some(format!("{} vertices and {} distinct outputs for {} qubits", dg.verts.len(), is_out.len(), n));
+                    }
+                    for v in &dg.verts {
+                        match v.ty {
+                            VT::B if is_out.contains(&v.id) => {}
+                            VT::Z if (v.den == 1 || v.den == 2) => {}
+                            _ => bad = Some(format!("vertex {} is {:?} with phase {}/{}", v.id, v.ty, v.num, v.den)),
+                        }
+                    }
+                    for &(a, b, h) in &dg.edges {
+                        match (ty.get(&a), ty.get(&b)) {
+                            (Some(VT::Z), Some(VT::Z)) if h && a != b => e_h += 1,
+                            (Some(VT::Z), Some(VT::B)) | (Some(VT::B), Some(VT::Z)) if !h => {
+                                let (z, o) = if ty[&a] == VT::Z { (a, b) } else { (b, a) };
+                                if wired.insert(z, o).is_some() {
+                                    bad = Some(format!("spider {z} carries two outputs"));
+                                }
+                            }
+                            _ => bad = Some(format!("unexpected edge {a}-{b} (hadamard={h})")),
+                        }
+                    }
+                    if bad.is_none() && wired.len() != n {
+                        bad = Some(format!("{} of {} spiders carry an output", wired.len(), n));
+                    }
+                    if let Some(why) = bad {
+                        fail(out, "promise_broken", format!("stabiliser state (seed {}) is not a graph state with outputs: {why}", sc.seed), "stab_state");
+                        return;
+                    }
+                    out.probe("stab_state_structural_norm_checked");
+                    let ok = match &dg.scalar {
+                        DSc::Exact(z) => z.norm_sqr() == Zw::sqrt2_pow(2 * (e_h - n as i64)),
+                        DSc::Float(..) => false,
+                    };
+                    if !ok {
+                        fail(
+                            out,
+                            "stab_state_not_normalised",
+                            format!("stabiliser state (seed {}, {} qubits, {} Hadamard edges): |scalar|^2 is not 2^({}): squared norm is not 1", sc.seed, n, e_h, e_h - n as i64),
+                            "stab_state",
+                        );
+                        return;
+                    }
+                    if n > 10 {
+                        if n > 64 {
+                            out.probe("stab_state_wider_than_a_machine_word");
+                        }
+                        return;
+                    }
+                }
                 match dg.tensor(20) {
                     Ok(t) => {
                         let mut n = Zw::zero();
@@ -568,10 +630,21 @@ impl Property for C19 {
                 // registers wider than a machine word in one run of eight
                 let qubits = if d.coin("pg.wide", 1, 8) { 60 + d.choose("pg.qw", 80) } else { 1 + d.choose("pg.q", 8) };
                 let maxw = 1 + d.choose("pg.max", qubits);
-                let minw = 1 + d.choose("pg.min", maxw);
-                Gen::PauliGadget { qubits, depth: if d.coin("pg.deep", 1, 12) { 50 + d.choose("pg.dd", 100) } else { d.choose("pg.d", 13) }, min_weight: minw, max_weight: maxw, phase_denom: 1 + d.choose("pg.den", 16) }
+                // the weight range reaches the whole register in a quarter of the runs
+                let maxw = if d.coin("pg.full", 1, 4) { qubits } else { maxw };
+                let minw = if d.coin("pg.fullmin", 1, 8) { maxw } else { 1 + d.choose("pg.min", maxw) };
+                // a few large instances (qubits x depth beyond 2^15): size thresholds inside a generator
+                let depth = if qubits >= 60 && d.coin("pg.large", 1, 5) {
+                    300 + d.choose("pg.ld", 500)
+                } else if d.coin("pg.deep", 1, 12) {
+                    50 + d.choose("pg.dd", 100)
+                } else {
+                    d.choose("pg.d", 13)
+                };
+                Gen::PauliGadget { qubits, depth, min_weight: minw, max_weight: maxw, phase_denom: 1 + d.choose("pg.den", 16) }
             }
-            "stab_state" => Gen::StabState { qubits: 1 + d.choose("ss.q", 8), hash_backend: d.coin("ss.hb", 1, 2) },
+            // registers wider than a machine word in one run of six (structural norm oracle there)
+            "stab_state" => Gen::StabState { qubits: if d.coin("ss.wide", 1, 6) { 20 + d.choose("ss.qw", 121) } else { 1 + d.choose("ss.q", 8) }, hash_backend: d.coin("ss.hb", 1, 2) },
             _ => Gen::SurfaceCode { distance: 2 + d.choose("sc.d", 3), rounds: d.choose("sc.r", 4) },
         };
         Sc { gen, seed, via_child: d.coin("child", 1, 12), seed_pos: d.choose("seedpos", 3) as u8, batch: 1 + d.choose("batch", 3) as u8, history: d.choose("history", 3) as u8 }
@@ -666,6 +739,38 @@ impl Property for C19 {
                 }
                 Caught::Panic(m) => out.violations.push(
                     Violation::new("panic", format!("{:?} seed {} (builder history {hist}): {m}", sc.gen, sc.seed))
+                        .with("generator", name)
+                        .with("one_qubit_random_circuit", matches!(sc.gen, Gen::Random { qubits: 1, .. }).to_string())
+                        .with("msg", super::c18::norm_msg(&m)),
+                ),
+                Caught::Budget => {}
+            }
+        }
+        // (i'') on a worker thread of a rayon pool (the simulated pool's workers are the threads of
+        // a real rayon pool of that size, and the build runs as a task of worker 0): a generator
+        // that takes another route when it finds itself inside a pool, or that splits its work by
+        // current_num_threads(), must still return the object of a plain thread
+        if sc.seed % 3 == 0 && !matches!(sc.gen, Gen::SurfaceCode { .. }) {
+            let g4 = sc.gen.clone();
+            let w = 2 + (sc.seed / 3 % 3) as usize;
+            let mut core = Core::new(dec, w);
+            core.pool_workers = w;
+            let (res, core) = with_sim(core, move || build(&g4, seed, sp, bt));
+            dec = core.dec;
+            out.steps += 1;
+            match res {
+                Caught::Ok(c) => {
+                    out.probe("pool_worker_compared");
+                    if c != a {
+                        out.violations.push(
+                            Violation::new("not_reproducible", format!("{:?} seed {}: build on a worker thread of a {w}-thread rayon pool differs from the build on a plain thread", sc.gen, sc.seed))
+                                .with("generator", name)
+                                .with("where", "rayon_worker"),
+                        );
+                    }
+                }
+                Caught::Panic(m) => out.violations.push(
+                    Violation::new("panic", format!("{:?} seed {} (on a pool worker): {m}", sc.gen, sc.seed))
                         .with("generator", name)
                         .with("one_qubit_random_circuit", matches!(sc.gen, Gen::Random { qubits: 1, .. }).to_string())
                         .with("msg", super::c18::norm_msg(&m)),
